@@ -1,4 +1,4 @@
-//@serves C03 C05 C14 C13 C02 C10 C11 C12 C01
+//@serves C03 C05 C14 C13 C02 C10 C11 C12 C01 C04
 //@tier A
 //@include prelude/head.rs
 verus! {
